@@ -149,6 +149,21 @@ def run(prop: str, tier: str, seed: int) -> int:
             cases = [{k: v for k, v in c.items() if not k.startswith("__")} for c in parse_cases(ob.get("detail", ""))]
             failures.append({"id": oid, "cfg": r["cfg"], "clause": ob["clause"], "shape": r["shape"], "cases": cases,
                              "detail": ob.get("detail", ""), "witness": ob.get("witness"), "labels": r["labels"]})
+    # ---------------- C06: node search (find_nodes / find_node) as fold steps
+    if prop == "C06":
+        from .c06_find import run_find
+
+        fr = run_find(REPO)
+        for e in fr["errors"]:
+            R.undecided.append(e)
+        for ob in fr["obligations"]:
+            n_obl += 1
+            backends["pyvc-concrete"] += 1
+            if ob["ok"]:
+                n_ok += 1
+            else:
+                failures.append({"id": f"C06/BaseRule.{ob['clause']}", "cfg": "BaseRule", "clause": ob["clause"], "shape": {}, "cases": [],
+                                 "detail": ob["detail"], "witness": None, "labels": ob.get("labels", [])})
     # ---------------- classify failures
     new = []
     for f in failures:
@@ -221,7 +236,7 @@ def run(prop: str, tier: str, seed: int) -> int:
         if per_cfg_app[cfg[0]] == 0 and not any(u.startswith(cfg[0]) for u in R.undecided):
             R.engine_errors.append(f"no applicable path for {cfg[0]} (vacuous)")
     # ---------------- evidence
-    R.level = "proof" if not R.undecided else "other"
+    R.level = "proof" if (not R.undecided and n_ok == n_obl) else "other"
     R.coverage = {
         "obligations": n_obl,
         "discharged": n_ok,
